@@ -88,6 +88,32 @@ checks = {
    note="fault model = process death between database writes (journal record boundaries / torn tail record); goleveldb journal replay trusted",
    technique="TLA+ spec VStoreCrash.tla + TLC; crash-point enumeration of TLC-generated behaviours on the real leveldb store"),
 }
+
+extra = {
+ "C01": " Added later: reorganisation scenarios (a producer adopts a longer branch across an epoch end, keeps producing, a fresh node synchronises and is traced), one walk with ZNN/QSR maximum supplies just above the genesis supplies (reward mints run into the cap), walks in child processes (a crash of the node's own goroutines is a C09 verdict).",
+ "C02": " Added later: the long history contains a silence across an epoch end; two delivery schedules issue read-only consensus and ledger queries between deliveries; reorganisation scenarios (a fresh node must accept what a reorganised producer builds); lab nodes keep their consensus database on disk across restarts as the real node does.",
+ "C03": " Added later: zero-amount (data-only) sends as pending and as already-received from-blocks.",
+ "C04": " Added later: reorganisation scenarios, incl. a contract receive left pending on the abandoned branch while the adopted branch confirms the same call behind another one; the fresh node's trace is validated for FIFO / at-most-once.",
+ "C07": " Added later: a generation pass over a state graph with ghost cache markers (GhostCache: which views were cached before a rollback, with the stale overlay) replays every transition that requests such a view again, plain and with 365 filler commits (second-level cache); half of the replayed commits are made from the change set of a view the writes went through (own-write visibility, no leak to sibling views, Changes() replays to the writes).",
+ "C09": " Added later: CallCells.tla - the input space of a call as cells over the code's own ABI tables (per parameter a default class and deviating classes by type, amount/token/caller dimensions, tie; <= 1 deviation, <= 2 for the token contract), 2 755 cells in the quick tier, each concretised against a prepared state (tokens, fusions, stakes, HTLCs, a project, deposits, an initialised bridge) and executed on a producing node in child processes; dust-backers and sentinel late-revoke scenarios (reward computation at the rounding / eligibility boundary); stalls of one to three epochs in the walks; a crash of the node process is reported with the crashing frame.",
+ "C10": " Added later: ReleasedRight in LedgerTrace.tla - on every validated trace (repository tests, walks, lock replays) each locked entry of any kind (fusion, stake, HTLC, pillar and sentinel collateral, QSR deposit, liquidity stake) that is gone or smaller after a momentum must have been paid by its contract, in its token, at least its amount, to the entitled party, not before its lock allows (periodic revoke windows evaluated at the execution-context time); a quick run sees about 270 releases of 7 kinds.",
+ "C11": " Added later: reorganisation across an epoch end (a node that saw the abandoned branch must accept the adopted one and end in the same state), multi-epoch stalls (several epochs rewarded by one Update), tight maximum supplies, dust-backers and sentinel late-revoke scenarios.",
+ "C12": " Added later: delivered blocks carry altered derived plasma fields (base / total plasma, not covered by the hash): the verdict must not depend on them.",
+ "C13": " Added later: canonical ABI encoding - the lab's own head/tail encoder is the oracle (compared with the code's encoder on every method's canonical call); type-aware non-canonical encodings of every method's call (dirty padding per static parameter, out-of-range bools, broken sign extension, non-zero right padding and shifted tails of dynamic parameters, trailing bytes; 246 in a run), hashed and signed by the owner, are offered to a node: none may be stored as delivered.",
+ "C14": " Added later: InsertRace.tla - the producer's generate / insert critical sections against a synchronising insert in between; all interleavings replayed on a real node with the worker's own calls; a -race build of four readers against a writer (gossip, sync, reorganisation, rollbacks) is run from the check, a DATA RACE report is a violation.",
+ "C15": " Added later: SyncSession.tla - the node's own synchronisation (ancestor lookup, hash download, momentum download) against a remote that serves a real longer chain and answers one request by class (empty, garbage, unknown, too many, reversed, silent, silent while a second remote sends hashes, nil / unrequested / duplicated momentums, heights below and above the download window): the process stays alive, the synchronisation ends, and afterwards a well-behaved remote is synchronised with; replayed over real TCP/RLPx in child processes.",
+ "C16": " Added later: an invalid element that exists only relative to the node's pool - a momentum by the rightful producer confirming a block the node pooled on the branch it abandoned.",
+}
+for k, v in extra.items():
+    checks[k]["text"] += v
+checks["C14"]["note"] = "concurrency clause: InsertRace.tla enumerates the producer/sync interleavings; 'no data race' is checked by the Go race detector on the schedules the scheduler produces, not by enumeration (DESIGN section 12)"
+checks["C10"]["note"] = "time boundaries are replayed at +-1 abstract unit (10 momentums); bridge unwrap requests are not driven (no TSS key ceremony in the lab)"
+checks["C09"]["note"] = "calls that need a particular contract state to go deep meet it only as far as the prepared fixture and the order of cells provide it; the walks complement this"
+checks["C13"]["technique"] = "TLA+ spec Variants.tla + TLC; replay of every cell on two real nodes; codec round trips; independent canonical ABI encoder as oracle for generated non-canonical encodings"
+checks["C15"]["technique"] = "TLA+ specs PeerSession.tla, WireSession.tla, SyncSession.tla + TLC; replay of every transition against the real protocol handler, p2p server, discovery listener and downloader in child processes"
+checks["C09"]["technique"] = "TLA+ specs Ledger.tla / LedgerTrace.tla / CallCells.tla + TLC; cells generated from the code's ABI tables executed on a producing node; trace validation of the producer path"
+checks["C14"]["technique"] = "TLA+ specs Pool.tla / InsertRace.tla + TLC; complete edge-cover replay on the real account pool and node; Go race detector stress"
+
 na = {}
 def main():
     props=[json.loads(l)["id"] for l in open("/verif/properties.jsonl")]
